@@ -146,9 +146,10 @@ def run(ctx):
                     vals.add(v[0] if v else (r[1].split("::")[-1] if r[0] == "call" else fmt(r)[:30]))
             # closures the paths did not run (handed to iterator adaptors ..): their creation site must follow the check
             fe, te = flag_edges(f)
+            spliced = {cn for gn, hn, cn in getattr(F, "inlined", []) if gn == name}
             for c in F.closures_of(f):
-                if c.name in seen_fns:
-                    continue
+                if c.name in seen_fns or c.name in spliced:
+                    continue        # run on the paths above (directly, or spliced into f by the A9 pass)
                 for bb, t in c.calls():
                     if not is_effectful(site_effects(F, c, bb)):
                         continue
